@@ -234,6 +234,8 @@ pub enum FsInfo {
     /// count unknown, correct hint
     HintOnly,
     Raw(u32, u32),
+    /// correct count, this next-free hint (allocation starts there)
+    Hint(u32),
 }
 
 pub struct Mk {
@@ -552,6 +554,7 @@ impl Mk {
                 FsInfo::CountOnly => (free, 0xFFFF_FFFF),
                 FsInfo::HintOnly => (0xFFFF_FFFF, first_free),
                 FsInfo::Raw(a, b) => (a, b),
+                FsInfo::Hint(h) => (free, h),
             };
             let mut fi = ZERO;
             put32(&mut fi, 0, 0x4161_5252);
